@@ -128,7 +128,7 @@ func init() {
 	reg("bytes.HasSuffix", intrinsics["internal/stringslite.HasSuffix"])
 	reg("internal/bytealg.MakeNoZero", func(c *Ctx, fn *ssa.Function, a []Value) Value {
 		n := int(c.concretizeInt(a[0].(*Term), "MakeNoZero"))
-		if int64(n) > c.maxAlloc {
+		if int64(n) > 1<<20 {
 			c.unsupported("MakeNoZero too large")
 		}
 		o := c.newArrayObj(types.Typ[types.Uint8], n)
